@@ -570,6 +570,20 @@ pub fn generate_reads(ctx: &mut Ctx, prop: &str) {
                         evs.push(Ev::Eof);
                         let _ = read_case(ctx, prop, &Case { fl, compressed, verify, frames, events: evs, wscript: vec![] });
                     }
+                    // the gate is a property of *every position* of a history: a good version packet (or several) followed
+                    // later by a bad one, solicited (request id 1) and unsolicited (request id 0)
+                    for (v1, v2) in [(9usize, 8usize), (9, 10), (9, 0), (9, 255), (8, 9), (9, 9), (10, 8)] {
+                        for reqi in [0u8, 1] {
+                            let mut a = pool.ver[v1].clone(); a[2] = reqi;
+                            let mut b = pool.ver[v2].clone(); b[2] = reqi;
+                            for frames in [vec![a.clone(), ping.clone(), b.clone(), ping.clone()], vec![a.clone(), a.clone(), ka.clone(), b.clone()], vec![ping.clone(), a.clone(), b.clone()]] {
+                                let style = ctx.rng.next();
+                                let mut evs = random_partition(&mut ctx.rng, &frames.concat(), style);
+                                evs.push(Ev::Eof);
+                                let _ = read_case(ctx, prop, &Case { fl, compressed, verify, frames, events: evs, wscript: vec![] });
+                            }
+                        }
+                    }
                     // every other kind passes the gate
                     for (_, f) in &pool.by_type {
                         let frames = vec![f.clone(), ping.clone()];
